@@ -176,15 +176,19 @@ func runC14(r *ev.Run, thorough bool) int {
 	}
 	n := nhRunPlans(r, "C14", "c14", plans,
 		"frozen virtual clock: five application bundles with identical source and creation time (two of them clock-less) submitted via SendBundle and via the agent path, two received bundles whose reception reports the node originates in the same millisecond; BFS over submissions, receptions, peers, send outcomes, retry ticks and restart; in every state the mapping bundle <-> ID on the wire is a bijection, every untransmitted submission has its own store record under the ID it carries, and each (re)transmission uses the stored ID",
-		[]string{"E3: 2 (thorough: also 3) threads inside SendBundle at once with identical source and creation time, all schedules up to a preemption bound (schedule points: IdKeeper mutex, store operations)"},
+		[]string{"E3: 2 (thorough: also 3) threads inside SendBundle at once with identical source and creation time, all schedules up to a preemption bound (schedule points: IdKeeper mutex, store operations, and - in a second pass - the codec calls inside the store's transactions, so that two transactions overlap and badger's conflict detection is exercised)"},
 		func() int {
 			bound, budget := 2, 2000
 			if thorough {
 				bound, budget = 3, 80000
 			}
-			n := nhSchedRun(r, "C14", nhConcArg{Algo: "epidemic", Mode: "submit", N: 2}, bound, budget)
+			n := nhSchedRun(r, "C14", nhConcArg{Algo: "epidemic", Mode: "submit", N: 2, IDsOnly: true}, bound, budget)
+			// the same with schedule points inside the store's transactions (two transactions interleave; badger's own
+			// conflict detection decides): iterative bounding, first every schedule with one preemption
+			n += nhSchedRun(r, "C14", nhConcArg{Algo: "epidemic", Mode: "submit", N: 2, Txn: true, IDsOnly: true}, 1, budget)
+			n += nhSchedRun(r, "C14", nhConcArg{Algo: "epidemic", Mode: "submit", N: 2, Txn: true, IDsOnly: true}, bound, budget)
 			if thorough {
-				n += nhSchedRun(r, "C14", nhConcArg{Algo: "epidemic", Mode: "submit", N: 3}, 2, budget)
+				n += nhSchedRun(r, "C14", nhConcArg{Algo: "epidemic", Mode: "submit", N: 3, IDsOnly: true}, 2, budget)
 			}
 			return n
 		})
